@@ -374,6 +374,18 @@ func runC14(c *Ctx) {
 				"a task can be charged to a node with accepted resources computed for another node (add/remove and the queue handlers then disagree): "+strings.Join(chain, " <- "))
 		}
 		c.Floor("O7", "MPT addTaskResources call sites", n, 1)
+		// … and "recomputed" means assigned afresh: for a task that occupies the node (active-used status) every path
+		// through setAcceptedResources stores AcceptedResource. A value left over from an abandoned what-if placement on
+		// another node (different GPU memory ⇒ different portion) must never survive.
+		isAccStore := func(in ssa.Instruction) bool {
+			st, ok := in.(*ssa.Store)
+			return ok && termOf(st.Addr).lastField() == "AcceptedResource" && rootParam(termOf(st.Addr)) == 1
+		}
+		_, path, found := reachAvoiding([]cfgPos{entryPos(setAcc)}, isReturn, isAccStore, func(from, to *ssa.BasicBlock) bool {
+			return !c.Fx.edgeEstablishes(from, to, func(f Fact) bool { return !f.Pol && isCallNamed(f.T, "IsActiveUsedStatus") })
+		})
+		c.Check(!found, "O7", "MUSTDEF", funcKey(setAcc)+": AcceptedResource is assigned on every path for a task that occupies the node", setAcc.Pos(), "skipped only when the status is not active-used",
+			"setAcceptedResources can return without assigning AcceptedResource to an active task ("+pathStr(path)+"): the value computed for an earlier, rolled-back placement on another node is charged to this node and its queues and is written into the BindRequest")
 	}
 
 	// O6: status lattice
